@@ -208,6 +208,7 @@ def units(tier, seed):
         out.append(("toy", {"curve": "t23a", "digests": [x.hex() for x in one[::32] + [b"\xff\xff"]]}))
         out.append(("toy", {"curve": "t23b", "digests": [x.hex() for x in one[3::64]]}))
         out.append(("toy", {"curve": "t29", "digests": [x.hex() for x in one[3::64]]}))
+        out.append(("toy", {"curve": "t17x", "digests": [x.hex() for x in one[::16]]}))
     else:
         for c in ("t13", "t23a", "t23b", "t29"):
             for part in range(4):
